@@ -16,6 +16,7 @@ COLS = INT_COLS + ["s"]
 MAIN_TABLES = ["t", "u", "v", "orders", "cust"]
 SCHEMA_TABLES = {"s": ["w"]}          # ATTACH ':memory:' AS "s";  "s"."w"
 N_DBS = 2
+SUB_VALUE = 2          # value of the shared family's scalar sub-query SELECT "x" FROM "u" (see dbs())
 
 
 class NotJudged(Exception):
@@ -47,14 +48,16 @@ def dbs():
             rng = random.Random("c04-db-%d" % k)
             db = sqlite3.connect(":memory:")
             db.execute("ATTACH DATABASE ':memory:' AS \"s\"")
-            coldef = ", ".join('"%s" %s' % (c, "TEXT" if c == "s" else "INTEGER") for c in COLS)
+            # "x" (the constant SUB_VALUE in every row) serves the fixed scalar sub-query of the shared term family,
+            # SELECT "x" FROM "u": whichever row the engine takes, its value is the same
+            coldef = ", ".join('"%s" %s' % (c, "TEXT" if c == "s" else "INTEGER") for c in COLS) + ', "x" INTEGER'
             for tb in MAIN_TABLES:
                 db.execute('CREATE TABLE "%s" (%s)' % (tb, coldef))
-                db.executemany('INSERT INTO "%s" VALUES (?,?,?,?,?)' % tb, _rows(rng, 4 + k))
+                db.executemany('INSERT INTO "%s" VALUES (?,?,?,?,?,?)' % tb, [r + (SUB_VALUE,) for r in _rows(rng, 4 + k)])
             for sch, tbs in SCHEMA_TABLES.items():
                 for tb in tbs:
                     db.execute('CREATE TABLE "%s"."%s" (%s)' % (sch, tb, coldef))
-                    db.executemany('INSERT INTO "%s"."%s" VALUES (?,?,?,?,?)' % (sch, tb), _rows(rng, 4 + k))
+                    db.executemany('INSERT INTO "%s"."%s" VALUES (?,?,?,?,?,?)' % (sch, tb), [r + (SUB_VALUE,) for r in _rows(rng, 4 + k)])
             db.commit()
             _DBS.append(db)
     return _DBS
@@ -154,6 +157,8 @@ class Ref:
         if k == "not":
             return "(NOT (%s))" % self.term(t[1])
         if k == "in":
+            if t[2][0] == "sub":
+                return "((%s) %sIN %s)" % (self.term(t[1]), "NOT " if t[3] else "", self.term(t[2]))
             if t[2][0] != "tuple":
                 raise NotJudged("in-container")
             return "((%s) %sIN (%s))" % (self.term(t[1]), "NOT " if t[3] else "", ", ".join("(%s)" % self.term(x) for x in t[2][1]))
@@ -170,6 +175,10 @@ class Ref:
             return s + " END)"
         if k == "func":
             return "%s(%s)" % (t[1], ", ".join(self.arg(x) for x in t[2]))
+        if k == "sub":
+            # the fixed sub-query of harness/terms_family.py: Query.from_(Table("u")).select("x")
+            r = self.fresh()
+            return "(SELECT %s.%s FROM %s AS %s)" % (qi(r), qi("x"), qi("u"), qi(r))
         if k == "star":
             if t[1] is None:
                 return "*"
